@@ -120,7 +120,7 @@ fn op_heap(req: &Value) -> Value {
         rep.len_after,
         vals(&rep.drained),
         show(&missing),
-        count
+        rep.main_cmps
     );
     json!({"r": r, "conserved": no_dup && counts_ok && rep.drain_outcome == "ok", "not_pushed": vals(&rep.not_pushed)})
 }
